@@ -404,6 +404,11 @@ class Runner:
 
     def report(self, ck, case, oracle):
         for sig, text, exp, obs in ck.viol:
+            if sig.startswith("outcome:") and not sig.startswith("outcome:output"):
+                # kept in the evidence even if the candidate later turns out not to be reproducible
+                self.st.extra.setdefault("outcome_anomalies", []).append(
+                    "%s | %s | pid=%d | %s" % (sig, str(obs)[:2200], os.getpid(), str(core.jsonable(case))[:400])
+                )
             self.st.violation(sig, case, oracle + ": " + text, expected=core.jsonable(exp), observed=core.jsonable(obs))
 
     # ---- raise / plain
@@ -435,7 +440,8 @@ class Runner:
             if ref[0] == "ok":
                 label = "ok"
                 if err is not None:
-                    ck.bad("outcome:unexpected-exception:" + type(err).__name__, "program without a reachable failure raises", ref[1][:200], repr(err)[:300])
+                    ck.bad("outcome:unexpected-exception:" + type(err).__name__, "program without a reachable failure raises", ref[1][:200],
+                           repr(err)[:300] + " || " + "".join(traceback.format_exception(type(err), err, tb))[-1800:])
                 elif out != ref[1]:
                     ck.bad("outcome:output", "rendered output differs from the reference", ref[1][:300], out[:300])
             elif mode == "fmtexc":
